@@ -29,23 +29,29 @@ LEVEL_TEXT = ("Lean 4 theorems, for all networks (any number of points and clust
               "the last linearisation = adjusted coordinates of the pass before; a converged run re-adjusts with zero iterations and "
               "the same results, for every adjustment that is a function of the network); the adjustment itself explored end-to-end.")
 LEVEL_NOTE = ("Numbers are abstract in Props/C13.lean: exact law on the representable numbers, or Codec.PrinterOn D (rd (fmt x) = q x, "
-              "fmt (q x) = fmt x, sign symmetric, non-zero never printed as zero; the two laws of the sexagesimal text on a domain D of "
-              "angular values) with a fixed-digits decimal printer as witness; Props/C13Codec.lean proves the law over Q for the real pair "
-              "%.{p}g / IsFloat+atof and gon2deg(.,0,4) / deg2gon (C18's models; D: 0 <= g, g*0.9 < 2^31-1) and instantiates round trip "
-              "and fixed point for angles=400 and angles=360. Trusted: Lean kernel, Props/C13.lean, tools/gen/c13_attrs.py, "
+              "fmt (q x) = fmt x, sign symmetric, non-zero never printed as zero; the same for the <cov-mat> elements with their own "
+              "printer fmtCov / quantisation qc; the two laws of the sexagesimal text on a domain D of angular values) with a "
+              "fixed-digits decimal printer as witness; Props/C13Codec.lean proves the law over Q for the real printers "
+              "%.{p}g (to_xmlstr; p = 8 / 16 / 17 by site, one p in the network model) / %.16e (updated_xml_covmat) / IsFloat+atof and "
+              "gon2deg(.,0,4) / deg2gon (C18's models; D: 0 <= g, g*0.9 < 2^31-1) and instantiates round trip and fixed point for "
+              "angles=400 and angles=360; the format at every number-printing site of the writer is regenerated "
+              "(Gen/GkfFmtSites.lean) and compared with the instantiated ones (C13_number_sites_formats). Trusted: Lean kernel, Props/C13.lean, tools/gen/c13_attrs.py, "
               "tools/gen/c13_doc.py, harness, generators.")
 TECHNIQUE = "Lean 4 proof (case analysis over record types, induction over lists) + translators for the parser tables and the writer sites + correspondence + end-to-end oracle"
 TRUSTED = ["tools/gen/c13_attrs.py (regex translator: attribute name -> local variable -> toDouble target -> setter/ctor argument "
            "for every GKFparser::process_*)",
            "tools/gen/c13_doc.py (regex translator: process_point/parameters/network tables, export_xml writer sites, status chains, "
-           "y_sign sites, updated_xml_covmat call flags; deviations from the modelled shape raise TieBroken)"]
-MODELLED = ["number formatting/parsing (to_xmlstr, setprecision, toDouble): Codec hypotheses; explored end-to-end",
+           "y_sign sites, updated_xml_covmat call flags, the ostream format at every number-printing site; deviations from the "
+           "modelled shape raise TieBroken)"]
+MODELLED = ["number formatting/parsing (to_xmlstr, setprecision, updated_xml_covmat's scientific/precision(16), toDouble): Codec "
+            "hypotheses, instantiated over Q (Props/C13Codec.lean); explored end-to-end",
             "PointData order (std::map) : the model keeps insertion order; <cov-mat> inside <obs>/<height-differences> replacing the "
             "stdev attributes: the model keeps the attribute (equal for consistent documents)",
             "Acord2 / linearisation / adjustment between parse and export (C06, C01): explored end-to-end only",
             "text layout of the exported file, expat, str2xml escaping (C12)"]
-ASSUMPTIONS = ["Codec.LawfulOn R / Codec.PrinterOn D q qd for the numbers written by export_xml: proved over Q for the real printers "
-               "(Props/C13Codec.lean: C13_real_codec_printer); doubles: the decimal -> double rounding of the reader, *0.324 / *(1/0.324) "
+ASSUMPTIONS = ["Codec.LawfulOn R / Codec.PrinterOn D q qc qd for the numbers written by export_xml: proved over Q for the real printers "
+               "(Props/C13Codec.lean: C13_real_codec_printer; <cov-mat> elements %.16e, all to_xmlstr sites one %.{p}g with p a "
+               "parameter although the sites use 8, 16 and 17 digits: C13_number_sites_formats lists them); doubles: the decimal -> double rounding of the reader, *0.324 / *(1/0.324) "
                "and the latitude unit conversion are exact over Q only",
                "angular values of a document in degrees lie in the domain of gon2deg(., 0, 4): 0 <= g, g*0.9 < 2^31-1 (Net.AngIn; "
                "gama normalises observed angles to [0, 400) gon; outside, no sign is printed / int(gon*0.9) overflows)",
@@ -823,6 +829,14 @@ def dnum(rng, lo, hi, nd=4):
 
 SEXA = re.compile(r'val="\s*(\d+-\d\d-\d\d\.\d{4})"')
 SEC60 = re.compile(r'-6\d\.\d{4}$')
+# round 8: the elements of an exported <cov-mat> are printed by updated_xml_covmat with `scientific`, `precision(16)` (%.16e; the
+# regenerated site `updated_xml_covmat` of Gen/GkfFmtSites.lean, `realCodec.fmtCov` = fmtSci 16; zero prints 0.0000000000000000e+00)
+COVMAT = re.compile(r"<cov-mat\b[^>]*>(.*?)</cov-mat>", re.S)
+COVNUM = re.compile(r"^-?\d\.\d{16}e[+-]\d{2,}$")
+
+
+def cov_tokens(xml):
+    return [t for body in COVMAT.findall(xml) for t in body.split()]
 
 
 def gon2dms(g):
@@ -1323,6 +1337,13 @@ def doc_stream(ctx, corr, exe):
             corr.disagree("doc", [doc[-1500:]], ["accepted"], model[i][:2], "the model refuses a document the parser accepts")
             continue
         exported = unhexs(impl[i][0].split()[1])
+        # round 8 (C13_number_sites_formats / C13_cov_site_roundtrip): every element of an exported <cov-mat> has the text of %.16e
+        ct = cov_tokens(exported)
+        corr.count("doc_covmat_elements", len(ct))
+        badc = [t for t in ct if not COVNUM.match(t)]
+        if badc:
+            corr.fail("an element of the exported <cov-mat> is not printed as %.16e (scientific, 16 decimals)",
+                      dict(payload, exported=exported[:3000], texts=badc[:4]), "LocalNetwork::updated_xml_covmat", f"{badc[:4]}")
         try:
             ra = canon_real(exported)
         except ET.ParseError as e:
